@@ -85,6 +85,23 @@ def with_paths(*idx):
     return deco
 
 
+def follow(st, c, depth=0):
+    """resolve a symbolic link in the final component (directories are never links in the modelled states);
+    None on a loop"""
+    while True:
+        e = fs(st).get(c)
+        if e is None or e[0] != 'symlink':
+            return c
+        depth += 1
+        if depth > 8:
+            return None
+        t = e[1]
+        if t.startswith(b'/'):
+            c = posixpath.normpath(t.decode('latin-1')).encode('latin-1')
+        else:
+            c = posixpath.normpath(posixpath.join(posixpath.dirname(c.decode('latin-1')), t.decode('latin-1'))).encode('latin-1')
+
+
 def parent_ok(st, path):
     par = posixpath.dirname(path.decode('latin-1')).encode('latin-1')
     if par in (b'', b'/', b'.'):
@@ -127,6 +144,9 @@ def _mkdir(I, st, args):
 def _writefile(I, st, args):
     p = need_concrete(args[0], 'WriteFile', st)
     log(st, 'write', args[0])
+    p = follow(st, p)
+    if p is None:
+        return err(I, st, 'open: too many levels of symbolic links')
     if not parent_ok(st, p):
         return err(I, st, 'open: no such file or directory')
     e = fs(st).get(p)
@@ -140,7 +160,8 @@ def _writefile(I, st, args):
 def _readfile(I, st, args):
     p = need_concrete(args[0], 'ReadFile', st)
     log(st, 'read', args[0])
-    e = fs(st).get(p)
+    p = follow(st, p)
+    e = fs(st).get(p) if p is not None else None
     if e is None:
         return Tup((None, err(I, st, 'open: no such file or directory')))
     if e[0] == 'dir':
@@ -164,14 +185,31 @@ def _fi_size(I, st, args):
 
 @model(('*verif.fileInfo', 'Mode'))
 def _fi_mode(I, st, args):
+    if len(args[0].data) > 2 and args[0].data[2]:
+        return 0x8000000 | 0o777          # fs.ModeSymlink
     return (0x80000000 | 0o755) if args[0].data[0] else 0o644
 
 
-@model('os.Stat', 'os.Lstat')
+@model('os.Lstat')
+@with_paths(0)
+def _lstat(I, st, args):
+    c = cpath(args[0], st)
+    e = fs(st).get(c) if c is not None else None
+    if e is not None and e[0] == 'symlink':
+        log(st, 'stat', args[0])
+        return Tup((Iface('*verif.fileInfo', Opaque('fileinfo', (False, len(e[1]), True))), None))
+    return _stat(I, st, args)
+
+
+@model('os.Stat')
 @with_paths(0)
 def _stat(I, st, args):
     c = cpath(args[0], st)
     log(st, 'stat', args[0])
+    if c is not None:
+        c = follow(st, c)
+        if c is None:
+            return Tup((None, err(I, st, 'stat: too many levels of symbolic links')))
     if c is None:
         # symbolic path: existence unknown; both answers are possible
         return ('alts', [(True, lambda s_: Tup((fileinfo(I, s_, False), None))), (True, lambda s_: Tup((fileinfo(I, s_, True), None))),
@@ -194,7 +232,8 @@ def _open(I, st, args):
     log(st, 'open', args[0])
     if c is None:
         return ('alts', [(True, lambda s_: Tup((mkfile(I, s_, None, 'r', args[0]), None))), (True, lambda s_: Tup((None, err(I, s_, 'open failed'))))])
-    e = fs(st).get(c)
+    c = follow(st, c)
+    e = fs(st).get(c) if c is not None else None
     if e is None:
         return Tup((None, err(I, st, 'open: no such file or directory')))
     return Tup((mkfile(I, st, c, 'r', args[0]), None))
@@ -207,6 +246,9 @@ def _create(I, st, args):
     log(st, 'create', args[0])
     if c is None:
         return ('alts', [(True, lambda s_: Tup((mkfile(I, s_, None, 'w', args[0]), None))), (True, lambda s_: Tup((None, err(I, s_, 'create failed'))))])
+    c = follow(st, c)
+    if c is None:
+        return Tup((None, err(I, st, 'open: too many levels of symbolic links')))
     e = fs(st).get(c)
     if e is not None and e[0] == 'dir':
         return Tup((None, err(I, st, 'open: is a directory')))
@@ -296,6 +338,63 @@ def _remove(I, st, args):
             return err(I, st, 'remove: directory not empty')
     fs_set(st, a, None)
     return None
+
+
+@model('os.Symlink')
+def _symlink(I, st, args):
+    t = need_concrete(args[0], 'Symlink', None) if concrete_str(args[0]) else None
+    if t is None:
+        raise Unsupported('Symlink with a symbolic target')
+    t = bytes(args[0])                     # the target is stored verbatim, not cleaned
+    p = need_concrete(args[1], 'Symlink', st)
+    log(st, 'symlink', args[0], args[1])
+    if fs(st).get(p) is not None:
+        return err(I, st, 'symlink: file exists')
+    if not parent_ok(st, p):
+        return err(I, st, 'symlink: no such file or directory')
+    fs_set(st, p, ('symlink', t))
+    return None
+
+
+@model('os.Link')
+@with_paths(0, 1)
+def _link(I, st, args):
+    # link(2) on Linux: the final component of the old name is not followed; the new name gets the same object
+    # (contents are values in this model, so later writes through one name are not seen through the other - the
+    # library never writes to a file after linking it)
+    a, b = cpath(args[0], st), cpath(args[1], st)
+    log(st, 'link', args[0], args[1])
+    if a is None or b is None:
+        return ('alts', [(True, None), (True, lambda s_: err(I, s_, 'link failed'))])
+    e = fs(st).get(a)
+    if e is None:
+        return err(I, st, 'link: no such file or directory')
+    if e[0] == 'dir':
+        return err(I, st, 'link: operation not permitted')
+    if fs(st).get(b) is not None:
+        return err(I, st, 'link: file exists')
+    if not parent_ok(st, b):
+        return err(I, st, 'link: no such file or directory')
+    fs_set(st, b, e)
+    return None
+
+
+@model('os.Readlink')
+def _readlink(I, st, args):
+    p = need_concrete(args[0], 'Readlink', st)
+    e = fs(st).get(p)
+    if e is None or e[0] != 'symlink':
+        return Tup((mkstr(b''), err(I, st, 'readlink: invalid argument')))
+    return Tup((mkstr(e[1]), None))
+
+
+@model('path/filepath.EvalSymlinks')
+def _evalsymlinks(I, st, args):
+    p = need_concrete(args[0], 'EvalSymlinks', st)
+    c = follow(st, p)
+    if c is None or (fs(st).get(c) is None and c not in (b'/', b'.', b'')):
+        return Tup((mkstr(b''), err(I, st, 'lstat: no such file or directory')))
+    return Tup((mkstr(c), None))
 
 
 @model('path/filepath.Abs')
